@@ -84,9 +84,11 @@ func NewRequestPacket(ntskeData ntske.Data) (pkt Packet, uniqueid []byte) {
 	cookie.Cookie = ntskeData.Cookie[0]
 	pkt.Cookies = append(pkt.Cookies, cookie)
 
-	// Add cookie extension fields here s.t. 8 cookies are available after response.
+	// Add cookie extension fields here s.t. 8 cookies are available after response,
+	// as far as request and response fit into MaxPacketLen.
+	maxCookies := maxNumCookies(len(id), len(cookie.Cookie))
 	cookiePlaceholderData := make([]byte, len(cookie.Cookie))
-	for i := len(ntskeData.Cookie); i < numStoredCookies; i++ {
+	for i := len(ntskeData.Cookie); i < numStoredCookies && 1+len(pkt.CookiePlaceholders) < maxCookies; i++ {
 		var cookiePlacholder CookiePlaceholder
 		cookiePlacholder.Cookie = cookiePlaceholderData
 		pkt.CookiePlaceholders = append(pkt.CookiePlaceholders, cookiePlacholder)
@@ -97,6 +99,18 @@ func NewRequestPacket(ntskeData ntske.Data) (pkt Packet, uniqueid []byte) {
 	pkt.Auth = auth
 
 	return pkt, id
+}
+
+// maxNumCookies returns the number of cookie extension fields with cookies of length
+// cookieLen that fit into a packet of MaxPacketLen bytes next to the NTP header, a unique
+// identifier of length uidLen and an authenticator (header, lengths, nonce, tag), be
+// it as extension fields of a request or encrypted within the authenticator of a response.
+func maxNumCookies(uidLen, cookieLen int) int {
+	n := MaxPacketLen - ntpPacketLen - (4 + (uidLen+3) & ^3) - (4 + 4 + 16 + 16)
+	if n < 0 {
+		return 0
+	}
+	return n / (4 + (cookieLen+3) & ^3)
 }
 
 // EncodePacket encodes pkt to a byte slice. It is expected that
@@ -277,6 +291,12 @@ func NewResponsePacket(cookies [][]byte, key []byte, uniqueid []byte) (pkt Packe
 	var uid UniqueIdentifier
 	uid.ID = uniqueid
 	pkt.UniqueID = uid
+
+	// Send as many cookies as fit into MaxPacketLen.
+	maxCookies := max(1, maxNumCookies(len(uniqueid), len(cookies[0])))
+	if len(cookies) > maxCookies {
+		cookies = cookies[:maxCookies]
+	}
 
 	lencookies := len(cookies) * (4 + len(cookies[0]))
 	buf := make([]byte, lencookies)
